@@ -37,7 +37,7 @@ ASSUMPTIONS = [
   "in which the pointer advances (grant != 0, and en high for the En variant); a reset restarts "
   "the bound",
 ]
-QUICK_S = 45
+QUICK_S = 240
 THOROUGH_S = 600
 
 VARIANTS = {"RoundRobinArbiter": False, "RoundRobinArbiterEn": True}
